@@ -748,7 +748,12 @@ impl RenderedFile {
         for d in ds {
             out.push_str(&self.text[pos..d.start]);
             if d.a2ml_level {
+                // the directive stands for the tokens of the file: a line comment that the file ends in must not
+                // swallow what follows the directive
                 out.push_str(&d.file.text);
+                if !d.file.text.ends_with('\n') && d.file.text.rsplit('\n').next().is_some_and(|l| l.contains("//")) {
+                    out.push('\n');
+                }
             } else {
                 out.push('\n');
                 out.push_str(&d.file.flatten());
